@@ -133,8 +133,7 @@ def _configs_ext(tabs, n, rng):
         tab = [(d, sz) for d, sz in tabs[m]["deg"] if 1 <= d <= DCAP]
         smax = max(sz for _, sz in tab)
         ns = rng.randint(2, 3) if kind == "few-shells" else rng.randint(4, 8)
-        rm = sorted(rng.sample(range(80, 2400), ns))
-        rm = [2 * x for x in rm]                        # even 1/1000 bohr, distinct
+        rm = [52 * x + 2 * rng.randint(0, 1) for x in sorted(rng.sample(range(3, 92), ns))]   # even 1/1000 bohr, gaps >= 0.05
         r0 = (j % 4 == 1)
         if r0:
             rm[0] = 0
@@ -331,7 +330,9 @@ def _mode_clauses(grid, cfg, C, rep, tag, sp, interp, S, center, rpts, basisl, e
             # radii in the middle part of node intervals: the finite-difference stencils below (step <= 1/16 of the
             # interval) then stay inside one polynomial piece of the splines
             gaps = np.diff(rpts)
-            cand = [i for i in range(len(gaps)) if rpts[i] + 0.35 * gaps[i] >= 0.2]
+            cand = [i for i in range(len(gaps)) if rpts[i] + 0.35 * gaps[i] >= 0.2 and gaps[i] >= 0.04]
+            if not cand:
+                continue
             pick = rng.choice(cand, size=3)
             rr = rpts[pick] + gaps[pick] * rng.uniform(0.35, 0.65, 3)
             hstep = np.minimum(1e-3 * rr, gaps[pick] / 16.0)
@@ -397,7 +398,8 @@ def _mode_clauses(grid, cfg, C, rep, tag, sp, interp, S, center, rpts, basisl, e
                 # Richardson-extrapolated central differences with a step of 1e-3 r.  Error budget: the library finds the
                 # polar angle with arccos, which next to the axis loses eps r^2 / h^2 (8e-10 at h / 2; it would be 1e-7
                 # with the absolute step 2e-4 used for generic points); truncation (h l / r)^4 / 30 ~ 1e-9 for l = 13.
-                # Measured worst 2.2e-9 (a third Richardson level only amplifies the arccos noise: 5e-9) -> TOL_FD_AXIS.
+                # With the smallest admitted step (node interval 0.04 at r = 5: h / r = 5e-4) the arccos term is 3.5e-9.
+                # Measured worst 3.9e-9 (a third Richardson level only amplifies the arccos noise: 5e-9) -> TOL_FD_AXIS.
                 h = hstep[:, None]
                 fd = np.zeros((n, 3))
                 for j in range(3):
